@@ -198,6 +198,15 @@ static void dump_flags(zckCtx *z) {
 
 /* ---- download side -------------------------------------------------- */
 static int feed_quiet;
+static volatile double cb_started_ms = -1;   /* >= 0 while inside a library call made by feed() */
+static volatile long cb_index = 0;
+static void on_xcpu(int sig) {
+    (void)sig;
+    double now = cpu_now();
+    zh_log("{\"ev\":\"xcpu\",\"i\":%d,\"in_callback\":%d,\"cb_index\":%ld,\"cb_cpu_ms\":%.1f}", opi, cb_started_ms >= 0, cb_index,
+           cb_started_ms >= 0 ? now - cb_started_ms : 0.0);
+    _exit(98);
+}
 static size_t feed(zckDL *dl, char *data, size_t len, const char *fragspec, int kind, int keep_going) {
     /* fragspec: "all" | "n:<size>" | "cuts:a,b,c" (ascending offsets) */
     size_t pos = 0, ncb = 0;
@@ -215,6 +224,7 @@ static size_t feed(zckDL *dl, char *data, size_t len, const char *fragspec, int 
     } else die("bad fragspec", fragspec);
     size_t ci = 0;
     int failed = 0;
+    double worst_cb = 0;
     while(pos < len) {
         size_t end;
         if(cuts) {
@@ -230,9 +240,14 @@ static size_t feed(zckDL *dl, char *data, size_t len, const char *fragspec, int 
         char *copy = malloc(n ? n : 1);
         memcpy(copy, data + pos, n);
         size_t r;
+        cb_index = ncb;
+        cb_started_ms = cpu_now();
         if(kind == 0) r = zck_write_chunk_cb(copy, 1, n, dl);
         else if(kind == 1) r = zck_write_zck_header_cb(copy, 1, n, dl);
         else r = zck_header_cb(copy, 1, n, dl);
+        double took = cpu_now() - cb_started_ms;
+        cb_started_ms = -1;
+        if(took > worst_cb) worst_cb = took;
         free(copy);
         ncb++;
         if(r != n) {
@@ -243,8 +258,8 @@ static size_t feed(zckDL *dl, char *data, size_t len, const char *fragspec, int 
         pos = end;
     }
     free(cuts);
-    if(!feed_quiet) zh_log("{\"i\":%d,\"op\":\"feed\",\"kind\":%d,\"len\":%zu,\"callbacks\":%zu,\"delivered\":%zu,\"failed\":%d,\"mp_state\":%d,\"mp_buffered\":%zu}",
-           opi, kind, len, ncb, pos, failed, dl->mp ? dl->mp->state : -1, dl->mp ? dl->mp->buffer_len : 0);
+    if(!feed_quiet) zh_log("{\"i\":%d,\"op\":\"feed\",\"kind\":%d,\"len\":%zu,\"callbacks\":%zu,\"delivered\":%zu,\"failed\":%d,\"mp_state\":%d,\"mp_buffered\":%zu,\"worst_cb_ms\":%.1f}",
+           opi, kind, len, ncb, pos, failed, dl->mp ? dl->mp->state : -1, dl->mp ? dl->mp->buffer_len : 0, worst_cb);
     return failed ? 0 : 1;
 }
 
@@ -266,6 +281,7 @@ int main(int argc, char **argv) {
     fclose(sf);
     sf = fdopen(sfd, "r");
     signal(SIGXFSZ, SIG_IGN);
+    signal(SIGXCPU, on_xcpu);
     for(int i = 0; i < NSLOT; i++) fds[i] = -1;
     zck_set_log_level(ZCK_LOG_NONE);
     const char *ll = getenv("ZH_LOGLEVEL");
@@ -566,7 +582,7 @@ int main(int argc, char **argv) {
             size_t l;
             char *d = get_data(t[2], &l);
             int kind = !strcmp(op, "body") ? 0 : (!strcmp(op, "zhdr") ? 1 : 2);
-            size_t ok = feed(dls[slot(t[1])], d, l, t[3], kind, t[4] && !strcmp(t[4], "cont"));
+            size_t ok = feed_frag_kg(dls[slot(t[1])], d, l, t[3], kind, t[4] && !strcmp(t[4], "cont"));
             free(d);
             RET("\"rc\":%zu", ok);
         } else if(!strcmp(op, "update")) {
